@@ -77,6 +77,9 @@ Example C15_nonvacuous :
   cwf (CSub (CClass true [(97,122)]) (CClass false [(0,9)])) /\
   get_ranges (CSub (CClass true [(97,122)]) (CClass false [(0,9)])) = Some [(10,96); (123,1114111)].
 Proof.
-  repeat split; try (vm_compute; reflexivity);
-  repeat constructor; unfold wfr, rB, rE, max_rune; simpl; try discriminate.
+  split; [|split; [|split]].
+  - repeat constructor; unfold wfr, rB, rE; cbn [fst snd]; apply Z.leb_le; vm_compute; reflexivity.
+  - vm_compute; reflexivity.
+  - cbn [cwf]. split; repeat constructor; cbn [rB rE fst snd]; try (apply Z.leb_le; vm_compute; reflexivity).
+  - vm_compute; reflexivity.
 Qed.
